@@ -250,6 +250,18 @@ class _STIXBase(collections.abc.Mapping):
 
                 has_custom = has_custom or temp_custom
 
+            elif has_unregistered_toplevel_extension and \
+                    prop_name in setting_kwargs:
+                # A property of an unregistered toplevel-property-extension:
+                # its type is unknown, but what holds for all STIX content
+                # can still be checked.
+                try:
+                    stix2.properties._check_no_null_or_empty_list(prop_val)
+                except ValueError as exc:
+                    raise InvalidValueError(
+                        cls, prop_name, reason=str(exc),
+                    ) from exc
+
         # Detect any missing required properties
         required_properties = set(
             get_required_properties(defined_properties),
